@@ -2,9 +2,10 @@
    expressions, pickling state round trip, concatenation composes. *)
 From Coq Require Import String ZArith Bool List.
 From Glom Require Import Base.PyVal Base.PySlice Generated.PathOps Model.TEval Model.PathSeq Model.TRepr Spec.PathSpec
-     Proofs.PathSeqProofs Proofs.TReprProofs.
+     Proofs.PathSeqProofs Proofs.TReprProofs Proofs.ReprRoundTrip.
 Import ListNotations.
 Local Open Scope list_scope.
+Local Open Scope string_scope.
 
 (* For every representation A of roots / opcodes / arguments, every root r and every list of steps, the
    expressions Path's methods apply to the flat tuple r :: c1 :: a1 :: c2 :: a2 ... (regenerated from the
@@ -68,6 +69,40 @@ Theorem path_concat_composes : forall p q target v,
   access (p ++ q) 0 target = Ok v <-> exists c, access p 0 target = Ok c /\ access q (length p) c = Ok v.
 Proof. exact path_concat_composes_lemma. Qed.
 Print Assumptions path_concat_composes.
+
+(* eval(repr(x)) = x.  print = the token-level model of _format_t / _format_path / _format_slice / format_invocation (bbrepr of
+   the arguments), read = the token-level model of what eval does with TType's overloads and Path.__init__; both are the very
+   functions the correspondence runs against the implementation's repr() / eval().  For EVERY T expression rooted at T, S or A, of
+   any length and nesting, whose steps are attribute access (no dunder names), item access (an expression, a slice with any of
+   its three parts absent, a tuple of expressions and slices, a one-slice tuple), a call with positional and keyword arguments,
+   or a wildcard, over literal, tuple and nested-T arguments, reading back what is printed gives the expression itself — hence an
+   object with the same repr, evaluating identically. *)
+Theorem t_repr_roundtrip : forall r steps,
+  wfa (GT r steps) -> forall fuel, 4 * tsize (GT r steps) + 5 <= fuel ->
+  parse_top fuel (fmt_t true (r, steps)) = Some (r, steps).
+Proof. exact t_repr_roundtrip_lemma. Qed.
+Print Assumptions t_repr_roundtrip.
+
+(* the same for every Path: plain-key segments (literal or tuple keys) interleaved with T chunks, rooted at T, S or A — the root is
+   carried by the leading chunk (an empty one when the first segment is a plain key), later chunks are rooted at T, and
+   Path.__init__ puts the segments back in order.  (For all sufficiently large reading fuel; the bound is linear in the size.) *)
+Theorem path_repr_roundtrip : forall r steps,
+  Forall wfp steps -> exists n, forall fuel, n <= fuel -> parse_top fuel (fmt_path true (r, steps)) = Some (r, steps).
+Proof. exact path_repr_roundtrip_lemma. Qed.
+Print Assumptions path_repr_roundtrip.
+
+(* non-vacuity: S.a['b'](1, k=T.c)[1:, ::2].__star__()  and  Path(S.a, 'b', T[1:2]) *)
+Example ex_t_wf :
+  wfa (GT RS [(".", GLit (LStr "a")); ("[", GLit (LStr "b"));
+              ("(", GCall [GLit (LInt 1)] [("k", GT RT [(".", GLit (LStr "c"))])]);
+              ("[", GTup [GSlice (Some (GLit (LInt 1))) None None; GSlice None None (Some (GLit (LInt 2)))]); ("x", GNoArg)]).
+Proof.
+  apply wfa_t; [reflexivity|]. repeat constructor.
+Qed.
+Example ex_path_reads_back :
+  parse_top 40 (fmt_path true (RS, [(".", GLit (LStr "a")); ("P", GLit (LStr "b")); ("[", GSlice (Some (GLit (LInt 1))) (Some (GLit (LInt 2))) None)]))
+  = Some (RS, [(".", GLit (LStr "a")); ("P", GLit (LStr "b")); ("[", GSlice (Some (GLit (LInt 1))) (Some (GLit (LInt 2))) None)]).
+Proof. vm_compute. reflexivity. Qed.
 
 (* bounded companion by computation, bound stated: all n <= 4, all indexes in [-6, 6] agree with tuple indexing *)
 Definition steps_n (n : nat) : list (nat * nat) := map (fun i => (i, i + 100)) (seq 0 n).
